@@ -48,6 +48,10 @@ type Ring struct {
 	paused     chan struct{}
 	resume     chan struct{}
 	joinDone   chan string
+	// generic second-stage pauses of an in-flight Join: before each FinishJoin call
+	pauseMatch func(method string) bool
+	pausedAt   chan string
+	resume2    chan struct{}
 
 	mu      sync.Mutex
 	nodes   map[uint64]*impl.LocalNode
@@ -190,6 +194,14 @@ func (w *W) gate(method string) (pre error, lose bool) {
 			<-resume
 			w.r.mu.Lock()
 		}
+	}
+	if w.r.pauseMatch != nil && w.r.pauseMatch(method) {
+		w.r.pauseMatch = nil
+		at, res := w.r.pausedAt, w.r.resume2
+		w.r.mu.Unlock()
+		at <- method
+		<-res
+		w.r.mu.Lock()
 	}
 	defer w.r.mu.Unlock()
 	if w.r.LogRPC {
@@ -627,13 +639,60 @@ func (r *Ring) Exec(t []string) string {
 		case <-time.After(opTimeout):
 			return "timeout"
 		}
-	case "joinend":
+	case "jointasks", "joinadvise":
+		// let the paused Join run up to (not including) its next FinishJoin call; report which call is pending
+		r.mu.Lock()
+		done := r.joinDone
+		r.pauseMatch = func(m string) bool { return strings.HasPrefix(m, "FinishJoin") }
+		r.pausedAt = make(chan string, 1)
+		prevResume2 := r.resume2
+		r.resume2 = make(chan struct{})
+		at := r.pausedAt
+		resume1 := r.resume
+		r.mu.Unlock()
+		if t[0] == "jointasks" {
+			select {
+			case <-r.paused:
+				select {
+				case <-resume1:
+				default:
+					close(resume1)
+				}
+			default:
+			}
+		} else if prevResume2 != nil {
+			close(prevResume2)
+		}
+		select {
+		case m := <-at:
+			time.Sleep(3 * time.Millisecond) // let the freshly started predecessor check run
+			return "pending:" + m
+		case res := <-done:
+			done <- res
+			return "finished"
+		case <-time.After(opTimeout):
+			return "timeout"
+		}
+	case "joinend", "joinrelease":
 		r.mu.Lock()
 		resume, done := r.resume, r.joinDone
+		if r.resume2 != nil {
+			select {
+			case <-r.resume2:
+			default:
+				close(r.resume2)
+			}
+			r.resume2 = nil
+		}
+		r.pauseMatch = nil
 		r.mu.Unlock()
 		select {
 		case <-r.paused:
-			close(resume)
+			select {
+			case <-resume:
+			default:
+				close(resume)
+			}
 		default:
 		}
 		select {
